@@ -419,6 +419,23 @@ _SAFE_BUILTINS = {
 }
 
 
+def _concretise_bool_array(r):
+    """an elementwise comparison of a NumPy object array holding symbolic reals yields an object array of symbolic
+    booleans; real NumPy would have produced dtype=bool, which later code relies on (boolean indexing, compress, mean).
+    Decide every element by forking the path (bool(SBool) asks the explorer), exactly as a scalar `if` would."""
+    try:
+        import numpy as _np
+    except ImportError:  # pragma: no cover
+        return r
+    if isinstance(r, _np.ndarray) and r.dtype == object and r.size and all(isinstance(x, (SBool, bool, _np.bool_)) for x in r.flat):
+        out = _np.zeros(r.shape, dtype=bool)
+        flat = out.reshape(-1)
+        for i, x in enumerate(r.flat):
+            flat[i] = bool(x)
+        return out
+    return r
+
+
 class Interp:
     def __init__(self, explorer=None, repo="/repo"):
         self.ex = explorer
@@ -1526,9 +1543,10 @@ class Interp:
             return SBool(eq) if isinstance(op, ast.Eq) else SBool(z3.Not(eq))
         f = _CMPOPS[type(op)]
         try:
-            return f(a, b)
+            r = f(a, b)
         except TypeError as ex:
             raise PyExc(ExcInst(EXC["TypeError"], ex.args))
+        return _concretise_bool_array(r)
 
     def identical(self, a, b):
         if hasattr(a, "sym_is"):
